@@ -220,6 +220,9 @@ def units(tier):
     from props.common import wrap as _wrap
     _wrap(us, "C17.cmdnext.continues_the_FOR_of_its_variable", CT.unit_cmdnext)
     _wrap(us, "C17.clearvar.scalar_reset_to_zero_or_empty", CT.unit_clearvar)
+    _wrap(us, "C17.relexpr.string_operands_follow_strcmp", CT.unit_string_comparison)
+    _wrap(us, "C17.findvar.subscripts_in_range_and_row_major", CT.unit_findvar_subscripts)
+    _wrap(us, "C17.cmdrestore.data_pointer_moves_with_the_data_line", CT.unit_cmdrestore)
     return us
 
 
